@@ -90,6 +90,18 @@ Theorem C03_overlay_remove_dir_keeps_tree : forall lg ft (s0 s1 : mstate) hs (p 
               wf s0' /\ view_tree s0' s1.
 Proof. exact remove_dir_keeps_tree. Qed.
 
+(** a call that FAILS leaves no debris either: append_file on a directory that only the lower layer has
+    returns an error, opens nothing, leaves the lower layer as it was and shows the same filesystem - no
+    file appears at p in the write layer, so the directory's children keep a directory for a parent *)
+Theorem C03_overlay_failed_append_keeps_tree : forall lg ft (s0 s1 : mstate) hs (p : path) f,
+  wf s0 -> p <> [] -> reachable s0 s1 p ->
+  s0 !! p = None -> s0 !! whiteout_path (v0, []) p = None -> s1 !! p = Some f -> f_type f = Dir ->
+  exists s0' e,
+    run bhandler (ovl_impl (v0, []) [(v1, [])] (CAppendFile p)) (mstore2 s0 s1 hs lg ft) = (mstore2 s0' s1 hs lg ft, Err e) /\
+    wf s0' /\ s0' !! p = None /\
+    forall q, user_path q -> view s0' s1 q = view s0 s1 q.
+Proof. exact append_lower_dir_fails. Qed.
+
 Print Assumptions C03_initial.
 Print Assumptions C03_sections.
 Print Assumptions C03_trait_calls.
@@ -101,3 +113,4 @@ Print Assumptions C03_overlay_create_dir_keeps_tree.
 Print Assumptions C03_overlay_create_file_keeps_tree.
 Print Assumptions C03_overlay_remove_file_keeps_tree.
 Print Assumptions C03_overlay_remove_dir_keeps_tree.
+Print Assumptions C03_overlay_failed_append_keeps_tree.
